@@ -427,7 +427,8 @@ def random_program(ctx, numqi, n, length, allow_placeholder=True):
     desc = []
     pending_P = {}  # placeholder key -> values; gates resolved at setP time
     placeholder_entries = []  # (log position, gate name, key, index or None)
-    gates_made = []  # (gate object, name, params) for re-use via append_gate
+    gates_made = []  # [gate object, name, params, arity, log positions] for re-use via append_gate and in-place parameter updates
+    updatable = []   # controlled parametrized gates (updated in place, not re-used)
 
     def pick(k):
         return tuple(int(x) for x in rng.permutation(n)[:k])
@@ -458,7 +459,7 @@ def random_program(ctx, numqi, n, length, allow_placeholder=True):
             params = tuple(float(x) for x in rng.uniform(0, 2 * np.pi, size=3 if name == 'u3' else 1))
             g = getattr(circ, name)(q, params if name == 'u3' else params[0])
             log.append((rq.gate_matrix(name, params), (q,), ()))
-            gates_made.append((g, name, params, 1))
+            gates_made.append([g, name, params, 1, [len(log) - 1]])
             desc.append((name, q, params))
         elif kind == 'Swap':
             a, b = pick(2)
@@ -470,7 +471,7 @@ def random_program(ctx, numqi, n, length, allow_placeholder=True):
             th = float(rng.uniform(0, 2 * np.pi))
             g = circ.rzz((a, b), th)
             log.append((rq.gate_matrix('rzz', (th,)), (a, b), ()))
-            gates_made.append((g, 'rzz', (th,), 2))
+            gates_made.append([g, 'rzz', (th,), 2, [len(log) - 1]])
             desc.append(('rzz', a, b, th))
         elif kind == 'ctrl-fixed':
             name = ['cnot', 'cx', 'cy', 'cz'][int(rng.integers(4))]
@@ -490,8 +491,9 @@ def random_program(ctx, numqi, n, length, allow_placeholder=True):
             cs, t = idx[:nc], idx[nc]
             params = tuple(float(x) for x in rng.uniform(0, 2 * np.pi, size=3 if name == 'cu3' else 1))
             cs_arg = cs[0] if (nc == 1 and rng.random() < 0.5) else cs
-            getattr(circ, name)(cs_arg, t, params if name == 'cu3' else params[0])
+            g = getattr(circ, name)(cs_arg, t, params if name == 'cu3' else params[0])
             log.append((rq.gate_matrix(name[1:], params), (t,), cs))
+            updatable.append([g, name[1:], params, 1, [len(log) - 1]])
             desc.append((name, cs, t, params))
         elif kind in ('matrix', 'matrix2', 'matrix3', 'matrix4'):
             k = {'matrix': 1, 'matrix2': 2, 'matrix3': 3, 'matrix4': 4}[kind]
@@ -519,12 +521,14 @@ def random_program(ctx, numqi, n, length, allow_placeholder=True):
             log.append((rq.rot(rq.SY, b) @ rq.rot(rq.SX, a), (q,), ()))
             desc.append(('custom ry_rx', q, a, b))
         elif kind == 'reuse':
-            g, name, params, k = gates_made[int(rng.integers(len(gates_made)))]
-            idx = pick(k)
+            entry = gates_made[int(rng.integers(len(gates_made)))]
+            g, name, params, k = entry[:4]
             if k > n:
                 continue
+            idx = pick(k)
             circ.append_gate(g, idx if k > 1 else (idx if rng.random() < 0.5 else idx[0]))
             log.append((rq.gate_matrix(name, params), idx, ()))
+            entry[4].append(len(log) - 1)
             desc.append(('reuse ' + name, idx))
         elif kind == 'placeholder':
             name = ['rx', 'ry', 'rz'][int(rng.integers(3))]
@@ -555,7 +559,7 @@ def random_program(ctx, numqi, n, length, allow_placeholder=True):
             else:
                 kw[k] = v if not isinstance(v, list) else np.array(v)
         circ.setP(*args, **kw)
-    return circ, log, desc
+    return circ, log, desc, gates_made + updatable
 
 
 def ref_unitary(log, n):
@@ -595,7 +599,7 @@ def run_programs(ctx, mon, numqi, part):
     for it in range(N):
         n = int(rng.integers(1, 6)) if it % 5 else 6
         length = int(rng.integers(1, 31)) if n <= 4 else int(rng.integers(1, 13))
-        circ, log, desc = random_program(ctx, numqi, n, length)
+        circ, log, desc, params_gates = random_program(ctx, numqi, n, length)
         ctx.set_case({'op': 'program', 'n': n, 'length': len(log), 'program': desc[:40]})
         used = set()
         for _, tg, cs in log:
@@ -603,7 +607,20 @@ def run_programs(ctx, mon, numqi, part):
         ctx.case('program', [(a, t, c) for a, t, c in log], nontrivial=(len(log) >= 2 and len(used) >= 2),
                  sample={'n': n, 'program': desc[:12]} if it < 2 else None)
         check_program(ctx, circ, log, n, desc, 'built')
-        # shift
+        # history: query, update parameters of existing gate objects in place, query again (the circuit must reflect the gates'
+        # CURRENT matrices; all occurrences of a shared gate object change together)
+        for _round in range(2):
+            if params_gates and rng.random() < 0.7:
+                for entry in [params_gates[int(i)] for i in rng.integers(0, len(params_gates), size=min(2, len(params_gates)))]:
+                    g, name, _, k, positions = entry
+                    newp = tuple(float(x) for x in rng.uniform(0, 2 * np.pi, size=3 if name == 'u3' else 1))
+                    with ctx.guard('program/set_args'):
+                        g.set_args(newp)
+                    entry[2] = newp
+                    for pos in positions:
+                        log[pos] = (rq.gate_matrix(name, newp), log[pos][1], log[pos][2])
+                    desc.append(('set_args ' + name, newp))
+                check_program(ctx, circ, log, n, desc, 'parameters-updated')
         if rng.random() < 0.6 and used:
             delta = int(rng.integers(1, 3))
             if max(used) + delta <= 5:
@@ -619,7 +636,7 @@ def run_programs(ctx, mon, numqi, part):
         # extend by a second program
         if rng.random() < 0.6:
             n2 = int(rng.integers(1, 5))
-            circ2, log2, desc2 = random_program(ctx, numqi, n2, int(rng.integers(1, 8)), allow_placeholder=False)
+            circ2, log2, desc2, _ = random_program(ctx, numqi, n2, int(rng.integers(1, 8)), allow_placeholder=False)
             with ctx.guard('program/extend'):
                 circ.extend_circuit(circ2)
             log = log + log2
